@@ -34,6 +34,7 @@ type fence struct {
 	wherein  []float64 // WHEREIN speed n v1 .. vn
 	evalGT   *float64  // WHEREEVAL "return FIELDS.speed > v" 0, or with evalArgv: "... > tonumber(ARGV[1])" 1 v
 	evalArgv bool
+	limit    int // LIMIT n in the definition (0 = none)
 	match    string
 	commands []string
 	nofields bool
@@ -119,6 +120,9 @@ func (f *fence) areaRectOrd() string {
 
 func (f *fence) args() []string {
 	a := []string{strings.ToUpper(f.cmd), f.key}
+	if f.limit > 0 {
+		a = append(a, "LIMIT", strconv.Itoa(f.limit))
+	}
 	if f.match != "" {
 		a = append(a, "MATCH", f.match)
 	}
@@ -446,6 +450,7 @@ type roundState struct {
 	lives   map[string]*fencex.Live
 	hookExp map[string][]string
 	nOther  int
+	n       int
 	label   string
 	main    verifapi.FenceArea
 	size    float64 // half-extent of the main area in degrees
@@ -468,7 +473,7 @@ func subsetsOfKinds() [][]string {
 func (e *env) round(n, nOther int) {
 	rng := e.rng
 	st := &roundState{key: fmt.Sprintf("k%d", n), byName: map[string]*fence{}, objs: map[string]obj{}, lives: map[string]*fencex.Live{},
-		hookExp: map[string][]string{}, nOther: nOther, label: fmt.Sprintf("round%d/others=%d", n, nOther)}
+		hookExp: map[string][]string{}, nOther: nOther, n: n, label: fmt.Sprintf("round%d/others=%d", n, nOther)}
 	st.c = e.s.MustDial()
 	defer st.c.Close()
 	var err error
@@ -528,6 +533,10 @@ func (e *env) round(n, nOther int) {
 	add(&fence{name: st.key + "-eval2", sink: "chan", cmd: mainCmd, area: st.main, evalGT: &gt, detect: pick(), role: "filter"})
 	add(&fence{name: st.key + "-evalhook", sink: "hook", cmd: mainCmd, area: st.main, evalGT: &gt, role: "filter"})
 	add(&fence{name: st.key + "-evallive", sink: "live", cmd: mainCmd, area: st.main, wherein: wi, role: "filter"})
+	// LIMIT is accepted in a fence definition and must not bound the number of notifications
+	add(&fence{name: st.key + "-limit", sink: "chan", cmd: mainCmd, area: st.main, limit: 5, role: "filter"})
+	add(&fence{name: st.key + "-limithook", sink: "hook", cmd: mainCmd, area: st.main, limit: 3, role: "filter"})
+	add(&fence{name: st.key + "-limitlive", sink: "live", cmd: mainCmd, area: st.main, limit: 4, role: "filter"})
 	add(&fence{name: st.key + "-match", sink: "chan", cmd: mainCmd, area: st.main, match: "t*", detect: pick(), role: "filter"})
 	add(&fence{name: st.key + "-cmds", sink: "chan", cmd: mainCmd, area: st.main, commands: []string{"set", "del"}, role: "filter"})
 	add(&fence{name: st.key + "-cmds2", sink: "chan", cmd: mainCmd, area: st.main, commands: []string{"fset", "drop"}, detect: pick(), role: "filter"})
@@ -1046,18 +1055,72 @@ func (e *env) script(st *roundState) {
 			e.check(st, write{kind: "pdel-child", id: id, o: o, label: "PDEL"}, filterID(msgs, id), filterLive(live, id))
 		}
 	}
-	// expiry: an object inside the area that expires in a moment
-	la, lo = in()
-	set("x9", la, lo, okSpeed(), "first-inside")
-	o9 := st.objs["x9"]
-	st.c.MustDo("EXPIRE", st.key, "x9", "0.2")
-	e.eval(st, write{kind: "expire", id: "x9", o: o9, label: "EXPIRE"})
+	// a long-lived fence: more than 100 notification-producing writes on the same fences (the scan
+	// writer of a fence lives as long as the fence; its default LIMIT is 100)
+	if st.n == 0 || e.cfg.Tier == "thorough" {
+		for j := 0; j < 110; j++ {
+			if j%2 == 0 {
+				la, lo = in()
+			} else {
+				la, lo = out(a + float64(j))
+			}
+			set("w5", la, lo, okSpeed(), "burst")
+		}
+	}
+	// expiry: several objects, inside and outside the area, that expire in the same sweep
+	expiring := []string{"x90", "x91", "x92", "x93", "x94"}
+	for j, id := range expiring {
+		if j%2 == 0 {
+			la, lo = in()
+			set(id, la, lo, okSpeed(), "first-inside")
+		} else {
+			la, lo = out(a + float64(j))
+			set(id, la, lo, okSpeed(), "first-outside")
+		}
+	}
+	vobj := map[string]obj{}
+	var raw []byte
+	for _, id := range expiring {
+		vobj[id] = st.objs[id]
+		raw = append(raw, srv.Encode("EXPIRE", st.key, id, "0.3")...)
+	}
+	// one pipelined write: the deadlines lie within a fraction of a millisecond of each other
+	if err := st.c.WriteRaw(raw); err != nil {
+		panic(err)
+	}
+	for range expiring {
+		if _, err := st.c.Read(); err != nil {
+			panic(err)
+		}
+	}
+	emsgs, _ := st.sub.Collect()
+	elive := e.readLives(st, func(f *fence) int {
+		k := 0
+		for _, id := range expiring {
+			k += len(toks(e.fm(abstract(f, write{kind: "expire", id: id, o: vobj[id]}).req)))
+		}
+		return k
+	})
+	for _, id := range expiring {
+		e.check(st, write{kind: "expire", id: id, o: vobj[id], label: "EXPIRE"}, filterID(emsgs, id), filterLive(elive, id))
+	}
 	deadline := time.Now().Add(5 * time.Second)
 	var expMsgs []fencex.Msg
+	delOrder := func() []string {
+		var order []string
+		seen := map[string]bool{}
+		for _, m := range expMsgs {
+			if m.Channel == st.key+"-d00" && m.Command == "del" && !seen[m.ID] {
+				seen[m.ID] = true
+				order = append(order, m.ID)
+			}
+		}
+		return order
+	}
 	for time.Now().Before(deadline) {
 		m, _ := st.sub.Collect()
 		expMsgs = append(expMsgs, m...)
-		if len(filterID(expMsgs, "x9")) > 0 {
+		if len(delOrder()) >= len(expiring) {
 			time.Sleep(30 * time.Millisecond)
 			m, _ = st.sub.Collect()
 			expMsgs = append(expMsgs, m...)
@@ -1065,10 +1128,30 @@ func (e *env) script(st *roundState) {
 		}
 		time.Sleep(40 * time.Millisecond)
 	}
-	delete(st.objs, "x9")
-	wexp := write{kind: "expired", id: "x9", o: o9, label: "expiry"}
-	live := e.readLives(st, func(f *fence) int { return len(toks(e.fm(abstract(f, wexp).req))) })
-	e.check(st, wexp, expMsgs, live)
+	// the sweep's order is the order of the del messages on the default-detection channel
+	order := delOrder()
+	for _, id := range expiring {
+		found := false
+		for _, x := range order {
+			found = found || x == id
+		}
+		if !found {
+			order = append(order, id)
+		}
+	}
+	for _, id := range expiring {
+		delete(st.objs, id)
+	}
+	xlive := e.readLives(st, func(f *fence) int {
+		k := 0
+		for _, id := range expiring {
+			k += len(toks(e.fm(abstract(f, write{kind: "expired", id: id, o: vobj[id]}).req)))
+		}
+		return k
+	})
+	for _, id := range order {
+		e.check(st, write{kind: "expired", id: id, o: vobj[id], label: "expiry"}, filterID(expMsgs, id), filterLive(xlive, id))
+	}
 	// DROP
 	st.c.MustDo("DROP", st.key)
 	st.objs = map[string]obj{}
